@@ -8,6 +8,10 @@
 
 #include <asmjit/support/support.h>
 
+#ifdef ASMJIT_VERIF
+extern "C" bool (*asmjit_verif_arena_fail)(void);
+#endif
+
 ASMJIT_BEGIN_NAMESPACE
 
 //! \addtogroup asmjit_support
@@ -316,6 +320,13 @@ public:
   [[nodiscard]]
   ASMJIT_INLINE T* alloc_oneshot(size_t size) noexcept {
     ASMJIT_ASSERT(Support::is_aligned(size, kAlignment));
+
+#ifdef ASMJIT_VERIF
+    // Verification hook H1: a harness-provided predicate decides whether this request must fail.
+    if (asmjit_verif_arena_fail && asmjit_verif_arena_fail()) {
+      return nullptr;
+    }
+#endif
 
 #if defined(__GNUC__)
     // We can optimize this function a little bit if we know that `size` is relatively small - which would mean
